@@ -22,6 +22,19 @@ CLAIMS['C07'] = dict(
         "impl-side oracle applies the same write history to every container of a kind and compares every block and every physical sector pairwise. FS-level histories are added with the FS models.",
    technique="Coq proof over generated skew/zone tables (finite sweeps lifted by lemma) + cell-probe correspondence + cross-container oracle",
    design_ref="DESIGN.md section 5 C07")
+FS_NOTE = (" Model: Fs/Spec.v, one state machine parameterised by the file system (allocation policy, index overhead, directory capacity and growth, holes, locking), "
+           "tied to the code by the fs-history correspondence stream: the extracted model must reproduce result class, reported free units, listing and chunk indices after EVERY step "
+           "of random, directory-fill and exact-fit histories on DOS 3.2/3.3, ProDOS, Pascal, CP/M, FAT over their containers; its initial state is read off the freshly formatted image by "
+           "independent readers (harness/src/fsck). Implementation-side oracles (the property's own wording, evaluated on the real file systems incl. CP/M 3 and invalid names) do the failing-input search.")
+for pid, text, tech in [
+  ('C01', "Theorems (Props/C01.v) for every parameter record, state, path and chunk set: an accepted put is what lookup returns (indices, holes), and it stays so under every later history that does not target the path.", "Coq proof (put_get, get_stable over all histories) + model/impl step correspondence + read-back oracle"),
+  ('C02', "Theorems (Props/C02.v): observational frame for every operation accepted or refused (incl. directory growth); allocation only hands out free, in-range, distinct units; ownership stays pairwise disjoint under every history.", "Coq proof (frame, pick_sound, WF_history) + model/impl step correspondence + bystander oracle"),
+  ('C03', "Theorems (Props/C03.v): the ownership invariant WF (no unit owned twice, none a system unit, all in range and marked used, used = system + owned) holds initially and is preserved by every operation, hence in every reachable state; impl side: five independent fsck readers check the same conditions plus chain termination and header counters on the real image after every step.", "Coq invariant proof by induction over histories + independent fsck readers on the implementation"),
+  ('C04', "Theorems (Props/C04.v): reported free = units neither system nor owned in every reachable state (no leak); put then delete restores the allocation map exactly; a file whose requirement incl. index overhead fits is accepted (first-free file systems). Exact-fit histories (free = need, need+1 at every index boundary) run through model and implementation.", "Coq proof (free_exact, put_delete_restores, accept) + exact-fit correspondence + accept/leak oracles"),
+  ('C05', "Theorems (Props/C05.v): listing changes exactly as the history says (put adds, delete removes, rename moves, refused changes nothing), duplicates and rename-onto-existing are refused, names stay unique in every reachable state.", "Coq proof (refinement lemmas, names_unique) + listing correspondence + tree/catalog/fsck listing oracle"),
+  ('C19', "Theorems (Props/C19.v): a locked file refuses delete/rename/put, lock then unlock restores the entry, changing protection touches no other path. Impl side: lock-heavy histories on all file systems (DOS lock bit, ProDOS access, CP/M and FAT read-only).", "Coq proof (locked_blocks, lock_unlock, lock_frame) + lock-heavy histories correspondence + protection oracle"),
+]:
+    CLAIMS[pid] = dict(text=text + FS_NOTE, technique=tech, design_ref='DESIGN.md section 5 (file-system block)')
 PLANNED = {f'C{i:02d}': 'check not built yet in this round (planned; see DESIGN.md section 10)' for i in range(1, 21)}
 
 def main():
